@@ -29,7 +29,11 @@ def configs(tier, seed):
           for shut in (None, 50):
             combos.append((lag, up, cr, shut))
     if tier == 'quick':
-      combos = [combos[(i * 5) % 16], combos[(i * 5 + 7) % 16], combos[(i * 5 + 10) % 16]]
+      if st == 'timesorted':
+        # the strategy that honours MIN_TIMESTAMP_LAG: always with a lag, with and without the shutdown rate
+        combos = [(30, 'inf', 'inf', None), (30, 2, 1, 50), (30, 2, 'inf', None), (0, 'inf', 1, 50)]
+      else:
+        combos = [combos[(i * 5) % 16], combos[(i * 5 + 7) % 16], combos[(i * 5 + 10) % 16]]
     i += 1
     for (lag, up, cr, shut) in combos:
       cfgs.append(dict(name='%s/lag%d/u%s/c%s/s%s' % (st, lag, up, cr, shut), strategy=st, lag=lag, updates=up, creates=cr, shutdown=shut))
@@ -43,6 +47,8 @@ def gen_workload(r, lag):
   n = r.randint(2, 8)
   for i in range(n):
     ts = 999900 + r.randrange(4) if not lag or r.random() < 0.5 else 1000000 + r.randrange(3)
+    if r.random() < 0.25:
+      ts += r.choice([0.25, 0.5, 0.75])      # sub-second clients
     ops.append(('store', r.choice(metrics), ts))
     if r.random() < 0.3:
       ops.append(('sleep', r.choice([0.05, 0.6, 1.2, 2.5])))
